@@ -224,14 +224,12 @@ func (b *FileBackend) PutInternal(ctx context.Context, entry *physical.Entry) er
 		return err
 	}
 
-	// JSON encode the entry and write it
+	// JSON encode the entry and write it. The write is staged in a file
+	// with a unique name that does not start with an underscore: the files
+	// of all entries do, so (unlike fullPath + ".temp", the file of the entry
+	// key + ".temp") this can never be the file of another entry.
 	fullPath := filepath.Join(path, key)
-	tempPath := fullPath + ".temp"
-	f, err := os.OpenFile(
-		tempPath,
-		os.O_CREATE|os.O_TRUNC|os.O_WRONLY,
-		0o600,
-	)
+	f, err := os.CreateTemp(path, ".temp-*")
 	if err != nil {
 		if f != nil {
 			f.Close()
@@ -241,6 +239,7 @@ func (b *FileBackend) PutInternal(ctx context.Context, entry *physical.Entry) er
 	if f == nil {
 		return errors.New("could not successfully get a file handle")
 	}
+	tempPath := f.Name()
 
 	enc := json.NewEncoder(f)
 	encErr := enc.Encode(&fileEntry{
@@ -250,26 +249,16 @@ func (b *FileBackend) PutInternal(ctx context.Context, entry *physical.Entry) er
 	if encErr == nil {
 		err = os.Rename(tempPath, fullPath)
 		if err != nil {
+			// See note below.
+			os.Remove(tempPath)
 			return err
 		}
 		return nil
 	}
 
-	// Everything below is best-effort and will result in encErr being returned
-
-	// See if we ended up with a zero-byte file and if so delete it, might be a
-	// case of disk being full but the file info is in metadata that is
-	// reserved.
-	fi, err := os.Stat(tempPath)
-	if err != nil {
-		return encErr
-	}
-	if fi == nil {
-		return encErr
-	}
-	if fi.Size() == 0 {
-		os.Remove(tempPath)
-	}
+	// Best-effort: the staging file is not reused by a later write, so do not
+	// leave it behind.
+	os.Remove(tempPath)
 	return encErr
 }
 
